@@ -10,6 +10,7 @@ pub mod uf;
 pub mod ops;
 
 pub mod probe;
+pub mod c01;
 pub mod c02;
 pub mod c03;
 pub mod c04;
@@ -19,6 +20,7 @@ pub mod c07;
 pub mod c08;
 pub mod c09;
 pub mod c10;
+pub mod c11;
 pub mod c12;
 pub mod c13;
 pub mod c14;
@@ -26,6 +28,7 @@ pub mod c15;
 pub mod c16;
 pub mod c17;
 pub mod c18;
+pub mod c19;
 pub mod c20;
 
 #[rustfmt::skip]
